@@ -3,6 +3,7 @@ import VaxisModel.Model.Wrap
 import VaxisModel.Model.WrapDraw
 import VaxisModel.Model.WrapHeap
 import VaxisModel.Spec.Wrap
+import VaxisModel.Model.WrapObj
 
 /-! Driver for C16 (see harness/cmd/C16/main.go for the op format).
 Output per line: `model-canon \t impl-canon \t verdict`, where the canon is the list of emitted
@@ -11,6 +12,13 @@ lines per width (`L tok,tok; …` joined by `|`) and the verdict is the C16 orac
 namespace VaxisModel.Driver.C16
 open VaxisModel.Driver VaxisModel.Model.Wrap
 open VaxisModel.Model
+/-- The plain scanner as the OBJECT of the current source (`Model/WrapObj.lean`: `s.state` stored where text.go stores
+it, read from the regenerated facts); equal to `plainLines o w cells 0` by `Props.C16Obj.src_scanner_is_value_model`. -/
+def plainObjLines (o : Nat → List Cell → Nat × Bool × Nat) (w : Nat) (cells : List Cell) : Lines :=
+  match WrapObj.srcLines o 0 w cells with
+  | some r => .ok r.1
+  | none => .hang
+
 open VaxisModel.Spec.Wrap (nonWs content natWidth trimTrailing lineWidthOK conserved hardBreakOK noNeedlessSplit noTermInLines segChain noNeedlessSplitRuns)
 
 structure Alpha where
@@ -368,7 +376,7 @@ def step (line : String) : String :=
           if kind = "P" then
             let ws := widthsRange lo hi
             let impls := impl.splitOn "|"
-            let model := "|".intercalate (ws.map fun w => encLines (plainLines o w cells 0))
+            let model := "|".intercalate (ws.map fun w => encLines (plainObjLines o w cells))
             let segs := segChain o (n + 1) 0 cells
             let v := firstFail ((ws.zip impls).map fun p => verdictFor a (fun w ls => noNeedlessSplitRuns segs w ls) cells p.1 p.2)
             let v := if impls.length ≠ ws.length then "FAIL malformed result" else v
